@@ -1,6 +1,56 @@
-"""Per-run watchdog exception (kept in its own module so that world.py / cli.py can re-raise it without importing the runner)."""
+"""Per-run watchdog (kept in its own module so that world.py / cli.py can re-raise it without importing the runner).
+
+The limit counts CPU time of the process (ITIMER_PROF; wall-clock x15 as a backstop).  When it fires, the stack tells who
+was running: if the innermost frame that belongs to either side is code of the tree under test, the *code under test*
+did not finish - a property violation ("does not terminate"), reported like any other with a replay that times out
+again; if it is the machinery (an oracle, the generator), it is a harness error."""
+import signal
 
 
 class RunTimeout(BaseException):
     """a BaseException so that no `except Exception` of an oracle (or of the code under test) can swallow it and turn a
     slow machine into a bogus verdict"""
+
+    def __init__(self, inside=False, site="?"):
+        super().__init__(inside, site)
+        self.inside = inside      # True: the tree under test was executing
+        self.site = site
+
+
+def _who(frame):
+    f = frame
+    n = 0
+    while f is not None and n < 200:
+        fn = f.f_code.co_filename
+        if "/tpmstream/" in fn:
+            return True, "%s:%s" % (fn.rsplit("tpmstream/", 1)[-1], f.f_code.co_name)
+        if "/sim/" in fn and "/tpmstream/" not in fn:
+            return False, "%s:%s" % (fn.rsplit("/sim/", 1)[-1], f.f_code.co_name)
+        f = f.f_back
+        n += 1
+    return False, "?"
+
+
+def _alarm(signum, frame):
+    inside, site = _who(frame)
+    raise RunTimeout(inside, site)
+
+
+def install():
+    signal.signal(signal.SIGALRM, _alarm)
+    signal.signal(signal.SIGPROF, _alarm)
+
+
+def arm(seconds):
+    signal.setitimer(signal.ITIMER_PROF, seconds)
+    signal.setitimer(signal.ITIMER_REAL, seconds * 15)
+
+
+def uninstall():
+    arm(0)
+    signal.signal(signal.SIGALRM, signal.SIG_IGN)
+    signal.signal(signal.SIGPROF, signal.SIG_IGN)
+
+
+def timeout_sig(pid, exc):
+    return "%s.T" % pid, "%s.T:does-not-terminate" % pid
